@@ -76,6 +76,22 @@ def handle (line : String) : String :=
     | some t => showList ((regionsFromPeers t size.toNat! (parseBits order) (parseBits cov)).map fun (p, sub) =>
         showBits p ++ ":" ++ "/".intercalate (sortStrings (sub.keys.map showBits)))
     | none => "panic"
+  | ["regalloc", peers, r, order, cov, items] => match buildTrie peers with
+    | some t =>
+      let r := r.toNat!
+      let order := parseBits order
+      let regions := regionsFromPeers t r order (parseBits cov)
+      let ps := regions.map (·.1)
+      let its := parseKeys items
+      showList (regions.map fun (p, sub) =>
+        -- the region's peers in a trie of their own, rooted at depth 0 (extractMinimalRegions), and its keys
+        let ptrie := (Trie.addMany Trie.empty (sub.entries order)).getD Trie.empty
+        let ktrie := (Trie.addMany Trie.empty ((its.filter fun h => assignKey ps h == p).map fun h => (h, showBits h))).getD Trie.empty
+        let a := ktrie.allocate ptrie r
+        let dests := sortStrings (a.map (·.1)).eraseDups
+        showBits p ++ ">" ++ "/".intercalate (sortStrings (sub.keys.map showBits)) ++ ">" ++
+          ";".intercalate (dests.map fun d => d ++ ":" ++ "/".intercalate (sortStrings ((a.filter (·.1 == d)).flatMap (·.2)))))
+    | none => "panic"
   | ["assign", prefixes, keys] =>
     let ps := parseKeys prefixes
     if ps.isEmpty then "[]" else
